@@ -167,11 +167,23 @@ def _gt_random(rng, counters, keys):
 
 def _ed_check(edit_distance, s, t, counters, keys, bands):
     d = lev(s, t)
-    for a, b in ((s, t), (s.encode(), t.encode())):
-        got = edit_distance(a, b)
-        if got != d:
-            raise Viol("edit_distance(%r,%r)=%r, Levenshtein distance is %d" % (a, b, got, d))
-        counters["ed_unbanded_checked"] = counters.get("ed_unbanded_checked", 0) + 1
+    # the property quantifies over call histories too: vary the order of banded / unbanded calls on the same pair
+    bands = list(bands)
+    order = (len(s) * 31 + len(t) * 17 + d) % 3
+    if order == 1:
+        bands.reverse()
+    elif order == 2:
+        bands = bands[1::2] + bands[0::2]
+
+    def unbanded():
+        for a, b in ((s, t), (s.encode(), t.encode())):
+            got = edit_distance(a, b)
+            if got != d:
+                raise Viol("edit_distance(%r,%r)=%r, Levenshtein distance is %d (call order %d)" % (a, b, got, d, order))
+            counters["ed_unbanded_checked"] = counters.get("ed_unbanded_checked", 0) + 1
+
+    if order == 0:
+        unbanded()
     for k in bands:
         got = edit_distance(s, t, k)
         if d <= k:
@@ -180,6 +192,8 @@ def _ed_check(edit_distance, s, t, counters, keys, bands):
         elif not got > k:
             raise Viol("edit_distance(%r,%r,maxdiff=%d)=%r, true distance %d > band but result is not > band" % (s, t, k, got, d))
         counters["ed_banded_checked"] = counters.get("ed_banded_checked", 0) + 1
+    if order != 0:
+        unbanded()
     if d >= 1 and s and t:
         keys.add("ed:%s:%s" % (s if len(s) < 30 else hashlib.sha1(s.encode()).hexdigest()[:12], t if len(t) < 30 else hashlib.sha1(t.encode()).hexdigest()[:12]))
 
